@@ -1692,8 +1692,36 @@ func (c *decodedClient) Return(e *Engine, st *State, ret *ast.ReturnStmt) {
 	ok := e.HasTag(st, x, "decoded") || isDecodeCall(e.Info, x)
 	if !ok {
 		// a single byte known to be ASCII (a fast path in front of the decoder)
-		if f := e.FactOf(st, x); f != nil && f.Lo != nil && f.Hi != nil && *f.Lo >= 0 && *f.Hi < 0x80 {
+		inner := ast.Unparen(x)
+		if conv, isCall := inner.(*ast.CallExpr); isCall && len(conv.Args) == 1 {
+			if tv, isT := e.Info.Types[conv.Fun]; isT && tv.IsType() {
+				inner = ast.Unparen(conv.Args[0])
+			}
+		}
+		unsigned := false
+		if b, isB := e.Info.TypeOf(inner).Underlying().(*types.Basic); isB && b.Info()&types.IsUnsigned != 0 {
+			unsigned = true
+		}
+		if f := e.valueOf(st, inner); f != nil && f.Hi != nil && *f.Hi < 0x80 && (unsigned || f.Lo != nil && *f.Lo >= 0) {
 			ok = true
+		}
+		// `if b := text[pos]; b < utf8.RuneSelf { pos++; return rune(b), true }`: the fact about b is about the byte
+		// that was read, whatever happens to the position afterwards
+		if o := objOf(e.Info, inner); o != nil && unsigned && !ok {
+			for n := e.P.Parent(ret); n != nil; n = e.P.Parent(n) {
+				ifs, isIf := n.(*ast.IfStmt)
+				if !isIf || !(ret.Pos() >= ifs.Body.Pos() && ret.End() <= ifs.Body.End()) {
+					if _, isFn := n.(*ast.FuncDecl); isFn {
+						break
+					}
+					continue
+				}
+				if b, isBin := ast.Unparen(ifs.Cond).(*ast.BinaryExpr); isBin && b.Op == token.LSS && objOf(e.Info, b.X) == o {
+					if lim, isC := constInt(e.Info, b.Y); isC && lim <= 0x80 && !writesTo(e.Info, ifs.Body, o) {
+						ok = true
+					}
+				}
+			}
 		}
 	}
 	e.Site("C09/runes", key, ret, ok, "the character returned is the first result of utf8.DecodeRune(InString) at the position (or a byte known to be ASCII)")
@@ -2283,6 +2311,7 @@ func (p *Program) keywordTable() (map[string]string, token.Pos) {
 // same literal is known to be false (path facts; a compound result expression is split into its outcomes).
 type accessorClient struct {
 	BaseClient
+	InlinePure
 	fn      string
 	recvKey string
 	isFloat *types.Func
@@ -2305,14 +2334,7 @@ func (c *accessorClient) Return(e *Engine, st *State, ret *ast.ReturnStmt) {
 		c.seen++
 		kind := t.Get(c.recvKey + ".Kind")
 		okKind := kind != nil && kind.HasEq && kind.Eq == c.numKey
-		okFloat := false
-		for _, k := range t.Keys() {
-			if strings.HasPrefix(k, "call:"+c.isFloat.FullName()+"(") {
-				if f := t.Get(k); f != nil && f.HasEq && f.Eq == "false" {
-					okFloat = true
-				}
-			}
-		}
+		okFloat := notSpelledAsFloat(t, c.isFloat, c.recvKey)
 		ok := okKind && okFloat
 		e.Site("C09/accessors", key, ret, ok, "Kind == TokenNumber and !IsFloat() are known where the answer is true")
 		if !ok {
@@ -2328,7 +2350,158 @@ func (c *accessorClient) Return(e *Engine, st *State, ret *ast.ReturnStmt) {
 	}
 }
 
+// uintClient: the integer value of a literal spelled as a float is taken from its float value.
+// notSpelledAsFloat: the state knows that the literal is not spelled with a fraction or exponent - IsFloat() is
+// known false, or the test IsFloat makes (strings.ContainsAny(lit.Value, ".eE"), also through a helper interpreted
+// in place) is.
+func notSpelledAsFloat(st *State, isFloat *types.Func, recvKey string) bool {
+	for _, k := range st.Keys() {
+		f := st.Get(k)
+		if f == nil || !f.HasEq || f.Eq != "false" {
+			continue
+		}
+		if strings.HasPrefix(k, "call:"+isFloat.FullName()+"(") {
+			return true
+		}
+		if strings.HasPrefix(k, "call:strings.ContainsAny("+recvKey+".Value,") {
+			rest := k[len("call:strings.ContainsAny("+recvKey+".Value,"):]
+			if strings.Contains(rest, ".") && strings.Contains(rest, "e") && strings.Contains(rest, "E") {
+				return true
+			}
+		}
+	}
+	return false
+}
+
+type uintClient struct {
+	BaseClient
+	InlinePure
+	fn      string
+	recvKey string
+	isFloat *types.Func
+	float64 *types.Func
+	numKey  string
+	seen    int
+}
+
+func (c *uintClient) Return(e *Engine, st *State, ret *ast.ReturnStmt) {
+	if !e.Reporting() || e.Lit != nil || ret == nil || len(ret.Results) != 1 {
+		return
+	}
+	c.seen++
+	// paths on which the literal is known not to be spelled as a float are free to parse the digits
+	if notSpelledAsFloat(st, c.isFloat, c.recvKey) {
+		return
+	}
+	key := fmt.Sprintf("%s return #%d: a float spelling goes through the float value", c.fn, returnOrdinal(e.Func, ret))
+	x := ast.Unparen(ret.Results[0])
+	ok := false
+	// uint64(lit.Float64())
+	if conv, isCall := x.(*ast.CallExpr); isCall && len(conv.Args) == 1 {
+		if tv, isT := e.Info.Types[conv.Fun]; isT && tv.IsType() {
+			if inner, isCall2 := ast.Unparen(e.ResolveExpr(conv.Args[0])).(*ast.CallExpr); isCall2 && Callee(e.Info, inner) == c.float64 {
+				ok = true
+			}
+		}
+	}
+	// 0 for something that is not a number at all
+	if v, isC := constInt(e.Info, x); isC && v == 0 {
+		if kind := st.Get(c.recvKey + ".Kind"); kind != nil && (kind.HasEq && kind.Eq != c.numKey || hasStr(kind.Ne, c.numKey)) {
+			ok = true
+		}
+	}
+	e.Site("C09/accessors", key, ret, ok, "where IsFloat() may hold the result is uint64(Float64()) (or 0 for a non-number)")
+	if !ok {
+		e.Site("C09/accessors", key, ret, false, "the unsigned value of a literal that may be spelled with a fraction or exponent is not derived from its float value: digits cut out of the spelling (`1.5e3` read as 1) give a number the literal does not denote")
+	}
+}
+
+// floatClient: IsFloat answers true only for a number whose text contains '.', 'e' or 'E'.
+type floatClient struct {
+	BaseClient
+	InlinePure
+	fn      string
+	recvKey string
+	numKey  string
+	seen    int
+}
+
+func (c *floatClient) Return(e *Engine, st *State, ret *ast.ReturnStmt) {
+	if !e.Reporting() || e.Lit != nil || ret == nil || len(ret.Results) != 1 {
+		return
+	}
+	if v := constOf(e.Info, ret.Results[0]); v != nil && v.String() == "false" {
+		return
+	}
+	e.quiet++
+	yes, no := e.cond(ret.Results[0], []*State{st})
+	e.quiet--
+	marker := func(t *State, want string) bool {
+		for _, k := range t.Keys() {
+			pre := "call:strings.ContainsAny(" + c.recvKey + ".Value,"
+			if strings.HasPrefix(k, pre) {
+				rest := k[len(pre):]
+				if f := t.Get(k); f != nil && f.HasEq && f.Eq == want && strings.Contains(rest, ".") && strings.Contains(rest, "e") && strings.Contains(rest, "E") {
+					return true
+				}
+			}
+		}
+		return false
+	}
+	key := fmt.Sprintf("%s return #%d follows the spelling", c.fn, returnOrdinal(e.Func, ret))
+	for _, t := range yes {
+		c.seen++
+		kind := t.Get(c.recvKey + ".Kind")
+		ok := kind != nil && kind.HasEq && kind.Eq == c.numKey && marker(t, "true")
+		e.Site("C09/accessors", key, ret, ok, "true only for a number whose text contains '.', 'e' or 'E'")
+		if !ok {
+			e.Site("C09/accessors", key, ret, false, "IsFloat can answer true where the kind is not known to be TokenNumber or the text is not known to contain '.', 'e' or 'E'")
+		}
+	}
+	for _, t := range no {
+		kind := t.Get(c.recvKey + ".Kind")
+		ok := kind != nil && (kind.HasEq && kind.Eq != c.numKey || hasStr(kind.Ne, c.numKey)) || marker(t, "false")
+		e.Site("C09/accessors", key+" (false)", ret, ok, "false only for a non-number or a text without '.', 'e', 'E'")
+		if !ok {
+			e.Site("C09/accessors", key+" (false)", ret, false, "IsFloat can answer false for a number whose text may contain '.', 'e' or 'E': a literal spelled with a fraction or exponent would count as an integer")
+		}
+	}
+}
+
 func ruleC09Accessors(p *Program, r *Run) {
+	if ffd := p.FuncDecl(p.Parser, "BasicLit.IsFloat"); ffd != nil && ffd.Recv != nil && len(ffd.Recv.List) == 1 && len(ffd.Recv.List[0].Names) == 1 {
+		pkg := p.Parser
+		fn := FuncName(pkg, ffd)
+		r.Saw(fn)
+		if tn := p.constNamed(pkg.Types.Scope(), "TokenNumber"); tn != nil {
+			fc := &floatClient{fn: fn, numKey: constKey(tn.Val())}
+			fe := NewEngine(p, pkg, ffd, fc)
+			fc.recvKey = fe.objKey(pkg.TypesInfo.Defs[ffd.Recv.List[0].Names[0]])
+			fe.Run(nil)
+			for _, m := range fe.Errs {
+				r.Fail("C09/accessors", fn+" engine", "-", m)
+			}
+			fe.FlushSites(r)
+			if fc.seen == 0 {
+				r.Fail("C09/accessors", fn+" answers", p.Pos(ffd.Pos()), "IsFloat never answers true on a feasible path")
+			}
+		}
+	}
+	if ufd := p.FuncDecl(p.Parser, "BasicLit.Uint64"); ufd != nil && ufd.Recv != nil && len(ufd.Recv.List) == 1 && len(ufd.Recv.List[0].Names) == 1 {
+		pkg := p.Parser
+		fn := FuncName(pkg, ufd)
+		r.Saw(fn)
+		if tn := p.constNamed(pkg.Types.Scope(), "TokenNumber"); tn != nil {
+			uc := &uintClient{fn: fn, isFloat: FuncObj(pkg, p.MustFunc(pkg, "BasicLit.IsFloat")), float64: FuncObj(pkg, p.MustFunc(pkg, "BasicLit.Float64")), numKey: constKey(tn.Val())}
+			ue := NewEngine(p, pkg, ufd, uc)
+			uc.recvKey = ue.objKey(pkg.TypesInfo.Defs[ufd.Recv.List[0].Names[0]])
+			ue.Run(nil)
+			for _, m := range ue.Errs {
+				r.Fail("C09/accessors", fn+" engine", "-", m)
+			}
+			ue.FlushSites(r)
+		}
+	}
 	pkg := p.Parser
 	info := pkg.TypesInfo
 	fd := p.MustFunc(pkg, "BasicLit.IsInteger")
